@@ -78,13 +78,21 @@ def run_C15(chk):
     rng = chk.rng
     lines = []; meta = []
     offs = list(range(-90000, 90001))
+    # far beyond 24 h, in particular values whose low 32 bits spell an offset within 24 h
+    big = []
+    for k in (1, -1, 2, -2, 3, 2**20, -2**20, 2**30, -2**30, 2**31 - 1, -2**31):
+        for sv in (0, 1, -1, 3600, -3600, 86399, -86399, 86400, -86400, 19800, rng.randrange(-86400, 86401)):
+            v = k * 2**32 + sv
+            if I64MIN <= v <= I64MAX: big.append(v)
+    big += [2**31 - 1, 2**31, -2**31, -2**31 - 1, 2**31 + 3600, -2**31 + 3600, I64MAX, I64MIN, I64MAX - 86399, I64MIN + 86399, I64MIN + 86400, 2**32, -2**32, 2**32 + 3600]
+    offs += sorted(set(big))
     for off in offs:
         lines.append('fixname %d' % off); meta.append(('name', off))
         lines.append('fixabbr %d' % off); meta.append(('abbr', off))
         lines.append('fixfrom ' + hx(spec_name(off))); meta.append(('from', spec_name(off)))
     # lookups: zone per offset
     if scale == 'quick':
-        zoffs = sorted(set([o for o in offs if o % 900 == 0] + [86400, -86400, 86399, -86399, 86401, -86401, 1, -1, 59, -59, 60, -60, 3599, -3599, 3601]
+        zoffs = sorted(set(big + [o for o in offs if o % 900 == 0] + [86400, -86400, 86399, -86399, 86401, -86401, 1, -1, 59, -59, 60, -60, 3599, -3599, 3601]
                            + [rng.randrange(-90000, 90001) for _ in range(1500)]))
     else:
         zoffs = offs
